@@ -253,6 +253,17 @@ def stressCases : G (List String) := do
       let mb := [false, true, true, true] ++ mvd ++ mvd
       let bits := (HdrD.plus ph).encode ++ mb ++ mb ++ mb ++ mb
       out := s!"P 0 d:{hexOf i};d:{hex (bitsToBytes (padToByte bits)).toArray};n" :: out
+  -- PLUSPTYPE + UMV: the largest differences, all of one sign, along one row of macroblocks (vectors accumulate through the
+  -- median predictor until the half-sample arithmetic saturates)
+  for sign in [false, true] do
+    for nmb in [3, 5, 8] do
+      let i ← genPic { flavour := 3 } 0 (128, 16) 1 true
+      let ph : PlusHdr := { tr := 2, ufep := true, srcFmt := 6, umv := true, uuiUnlimited := true, picType := 1, par := 2, pwi := 31, phi := 4, quant := 5 }
+      let cont : Bits := (List.range 11).flatMap fun _ => [true, true]
+      let mvd := [false] ++ cont ++ [sign, false]
+      let mb := [false, true, true, true] ++ mvd ++ mvd
+      let bits := (HdrD.plus ph).encode ++ (List.range nmb).flatMap fun _ => mb
+      out := s!"P 0 d:{hexOf i};d:{hex (bitsToBytes (padToByte bits)).toArray};n" :: out
   -- PLUSPTYPE predicted picture with UFEP = 000 and no previous picture (no format to inherit)
   for k in [0, 1, 2] do
     let p ← genPic { flavour := 3 } 1 (32, 32) k true
